@@ -18,7 +18,7 @@ use eyre::WrapErr;
 
 use crate::{
     component::ExecResult,
-    components::{initialization, mutation, replacement, selection},
+    components::{boundary, initialization, mutation, replacement, selection, utils},
     conditions::Condition,
     configuration::Configuration,
     heuristics::ls,
@@ -49,6 +49,11 @@ where
         ls_condition,
     } = params;
 
+    let ls::RealProblemParameters {
+        n_neighbors,
+        deviation,
+    } = ls_params;
+
     Ok(Configuration::builder()
         .do_(initialization::RandomSpread::new(1))
         .evaluate()
@@ -56,9 +61,14 @@ where
         .do_(ils::<P, Global>(
             Parameters {
                 perturbation: mutation::PartialRandomSpread::new_full(),
-                ls: ls::real_ls::<P>(ls_params, ls_condition)
-                    .wrap_err("failed to construct local search")?
-                    .into_inner(),
+                ls: ls::ls::<P, Global>(
+                    ls::Parameters {
+                        num_neighbors: n_neighbors,
+                        neighbors: mutation::NormalMutation::new_dev(deviation),
+                        constraints: boundary::Saturation::new(),
+                    },
+                    ls_condition,
+                ),
             },
             condition,
         ))
@@ -86,6 +96,11 @@ where
         ls_condition,
     } = params;
 
+    let ls::PermutationProblemParameters {
+        num_neighbors,
+        num_swap,
+    } = ls_params;
+
     Ok(Configuration::builder()
         .do_(initialization::RandomPermutation::new(1))
         .evaluate()
@@ -93,9 +108,15 @@ where
         .do_(ils::<P, Global>(
             Parameters {
                 perturbation: <mutation::ScrambleMutation>::new_full(),
-                ls: ls::permutation_ls::<P>(ls_params, ls_condition)
-                    .wrap_err("failed to construct local search")?
-                    .into_inner(),
+                ls: ls::ls::<P, Global>(
+                    ls::Parameters {
+                        num_neighbors,
+                        neighbors: mutation::SwapMutation::new(num_swap)
+                            .wrap_err("failed to construct the swap mutation")?,
+                        constraints: utils::Noop::new(),
+                    },
+                    ls_condition,
+                ),
             },
             condition,
         ))
